@@ -18,7 +18,8 @@ LEVEL_TEXT = ('Kernel-checked theorems (Props/C10.v) about the Gallina model of 
               'local candidates equals sum_{i<=j} R[i,j] q_i (so T * B_coarse = B on every aggregated unknown), and a '
               'dropped column differs by exactly the discarded remainder; and every Gram-Schmidt step preserves "columns '
               'pairwise orthogonal, each of unit length (kept, given nrm^2 = |v|^2) or zero (dropped)", i.e. Q^T Q = '
-              'diag(1 or 0) by induction from the empty set.  The model evaluated at PrimFloat must '
+              'diag(1 or 0); the induction over all columns of an aggregate is carried out in C10_gram_schmidt_aggregate_orthonormal '
+              '(q_i.q_j = 0 for i < j, q_i.q_i = 1 or q_i orthogonal to everything).  The model evaluated at PrimFloat must '
               'reproduce bit-for-bit the Q and R arrays of the rebuilt working-tree kernel for all partitions with '
               'unaggregated rows, 1-3 candidates, nodal block sizes 1-3 and locally rank-deficient candidates; an oracle '
               'checks on the public routines: orthonormal-or-zero columns, T B_c = B, and for every prolongation smoother '
